@@ -173,6 +173,7 @@ var specC21s = vstat.Spec[c21sCase]{
 	Gen:      genC21s,
 	Check:    checkC21s,
 	Inflight: true,
+	Confirm:  true,
 }
 
 func TestC21Script(t *testing.T)       { vstat.Check(t, specC21s) }
